@@ -86,16 +86,19 @@ func runC20(r *Run) {
 			}
 		}
 		r.need(resp != nil && resp.Closure != nil, "handler visits the response cookies with a closure")
-		// after the protected continuation every path passes the visitor
-		var next ssa.Instruction
-		for _, in := range instrsWhere(h, isNextCall) {
-			if in.Block().Dominates(resp.Call.Block()) {
-				next = in
+		// after every protected continuation (all c.Next() calls except the documented cfg.Next skip) every path passes the visitor
+		nNext := 0
+		okAll := true
+		for _, next := range instrsWhere(h, isNextCall) {
+			if isCfgNextSkip(h, next) {
+				continue
+			}
+			nNext++
+			if _, hit := reach(pointAfter(next), isReturn, nil, func(in ssa.Instruction) bool { return in == resp.Call.Instr }); hit != nil {
+				okAll = false
 			}
 		}
-		r.need(next != nil, "the response visitor is dominated by c.Next()")
-		_, hit := reach(pointAfter(next), isReturn, nil, func(in ssa.Instruction) bool { return in == resp.Call.Instr })
-		r.check(hit == nil, "handler:response-visitor-after-Next", r.pos(resp.Call.Instr), "every path from c.Next() to return runs the response-cookie visitor", "a return is reachable after c.Next() without the response cookies being encrypted")
+		r.check(nNext >= 1 && okAll, "handler:response-visitor-after-Next", r.pos(resp.Call.Instr), "every path from every c.Next() (except the cfg.Next skip) to return runs the response-cookie visitor", "a return is reachable after a c.Next() without the response cookies being encrypted")
 		cl := resp.Closure
 		enc := callsMatching(cl, false, nameIs("field:encryptcookie.Config.Encryptor"))
 		r.need(len(enc) == 1, "response visitor calls cfg.Encryptor once")
@@ -112,7 +115,7 @@ func runC20(r *Run) {
 			ci, ok := in.(ssa.CallInstruction)
 			return ok && strings.HasSuffix(calleeName(ci.Common()), "fasthttp.Cookie).SetValue") && ci.Common().Args[1] == encVal
 		}
-		_, hit = reach(entryOf(cl), isSetCookie, nil, isSetEncValue)
+		_, hit := reach(entryOf(cl), isSetCookie, nil, isSetEncValue)
 		r.check(encVal != nil && hit == nil && len(instrsWhere(cl, isSetCookie)) >= 1, "response-visitor:stores-only-ciphertext", r.fpos(cl), "the cookie is stored back only after its value was set to the Encryptor result", "a response cookie can be stored back without its value being replaced by the Encryptor result (plaintext reaches the client)")
 		okErr := false
 		for _, br := range branchesIn(cl) {
@@ -249,12 +252,18 @@ func runC20(r *Run) {
 			}
 		}
 		r.need(reqVisit != nil, "request visitor")
-		okOrder := false
+		okOrder := true
+		nn := 0
 		for _, in := range instrsWhere(h, isNextCall) {
-			if reqVisit.Call.Block().Dominates(in.Block()) && reqVisit.Call.Block() != in.Block() || (reqVisit.Call.Block() == in.Block() && idxIn(reqVisit.Call.Instr) < idxIn(in)) {
-				okOrder = true
+			if isCfgNextSkip(h, in) {
+				continue // the only continuation allowed to run before decryption
+			}
+			nn++
+			if _, hit := reach(entryOf(h), func(x ssa.Instruction) bool { return x == in }, nil, func(x ssa.Instruction) bool { return x == reqVisit.Call.Instr }); hit != nil {
+				okOrder = false
 			}
 		}
+		okOrder = okOrder && nn >= 1
 		r.check(okOrder, "handler:decrypt-before-Next", r.pos(reqVisit.Call.Instr), "request cookies are processed before the protected handler runs", "the handler runs before request cookies are decrypted")
 		// DecryptCookie: non-empty only from Open success
 		d := r.Fn(encPkg, "DecryptCookie")
@@ -343,4 +352,19 @@ func runC20(r *Run) {
 		}
 		r.atLeast("request-cookie visitors in the module", n, 1)
 	})
+}
+
+// isCfgNextSkip: this c.Next() call sits on the `cfg.Next(c) == true` edge (documented bypass).
+func isCfgNextSkip(h *ssa.Function, next ssa.Instruction) bool {
+	for _, c := range callsMatching(h, false, nameIs("field:encryptcookie.Config.Next")) {
+		for _, br := range ifsOnValue(h, c.Value()) {
+			if s, ok := br.truthSlot(true); ok {
+				tgt := br.If.Block().Succs[s]
+				if len(tgt.Preds) == 1 && tgt.Dominates(next.Block()) {
+					return true
+				}
+			}
+		}
+	}
+	return false
 }
